@@ -5,6 +5,7 @@
 pub mod build;
 pub mod common;
 pub mod conv;
+pub mod custom;
 pub mod elf;
 pub mod header;
 pub mod info;
@@ -173,6 +174,9 @@ fn dispatch(ctx: &mut Ctx, op: &str, call: &Value) -> Value {
     }
     #[cfg(feature = "builder")]
     if let Some(v) = build::dispatch(ctx, op, call) {
+        return v;
+    }
+    if let Some(v) = custom::dispatch(ctx, op, call) {
         return v;
     }
     if let Some(v) = conv::dispatch(op, call) {
